@@ -161,7 +161,39 @@ def contour_obligations(P):
         uses_x = any(X.sym in a.args[0].atoms() or a.args[0].eq(X.sym) for a in xs) or any(X.sym.top_atoms() <= set(a.args[0].atoms()) for a in xs)
         uses_y = any(Y.sym.top_atoms() <= set(a.args[0].atoms()) for a in xs)
         absx = [a for a in cell.atoms() if a.kind == "fn" and a.name == "abs"]
-        obs.append(req_ob("R-COUNT", site, "the cell area is |dx| * |dy| taken from the x and y coordinate arrays %s" % tag, uses_x and uses_y and len(absx) == 2, detail="cell area %r" % (cell,), key={"clause": "cell"}))
+
+        def spacing_of(a, arr, axis):
+            """|a| where a = arr[.., k+1, ..] - arr[.., k, ..]: two neighbouring entries along `axis`, everything else equal"""
+            e = a.args[0].expand() if a.args and isinstance(a.args[0], Expr) else None
+            if e is None or len(e.n) != 2:
+                return False
+            terms = list(e.n.items())
+            if not all(len(m) == 1 and m[0][1] == 1 and m[0][0].kind == "fn" and m[0][0].name == "at" and c.im == 0 for m, c in terms):
+                return False
+            (m1, c1), (m2, c2) = terms
+            if c1.re * c2.re != -1:
+                return False
+            a1, a2 = m1[0][0], m2[0][0]
+            if not (isinstance(a1.args[0], Expr) and a1.args[0].eq(arr.sym) and isinstance(a2.args[0], Expr) and a2.args[0].eq(arr.sym)) or len(a1.args) != len(a2.args):
+                return False
+            i1, i2 = a1.args[1:], a2.args[1:]
+            ax = axis if len(i1) > 1 else 0
+            for k, (p, q) in enumerate(zip(i1, i2)):
+                if not (isinstance(p, Expr) and isinstance(q, Expr)):
+                    return False
+                d = (p - q).expand()
+                if k == ax:
+                    if not (d.eq(ONE) or d.eq(-ONE)):
+                        return False
+                elif not d.is_zero():
+                    return False
+            return True
+
+        okx = any(spacing_of(a, X, 1) for a in absx)
+        oky = any(spacing_of(a, Y, 0) for a in absx)
+        power_ok = len(absx) == 2 and cell.eq(alg.atom_expr(absx[0]) * alg.atom_expr(absx[1]))
+        obs.append(req_ob("R-COUNT", site, "the cell area is |dx| * |dy|: the spacing of two neighbouring x entries along the x axis times that of two neighbouring y entries along the y axis %s" % tag,
+                          uses_x and uses_y and okx and oky and power_ok, detail="cell area %r" % (cell,), key={"clause": "cell"}))
     return obs
 
 
